@@ -477,7 +477,7 @@ func (c *Ctx) ruleVerifiedCommit() {
 	// success return after the comparison
 	okRet := false
 	for _, r := range returnsOf(f) {
-		if isNilConst(r.Results[0]) {
+		if isNilConst(resultOf(r, 0)) {
 			okRet = cmp.Block().Dominates(r.Block()) && r.Block() != cmp.Block()
 		}
 	}
@@ -594,7 +594,7 @@ func (c *Ctx) ruleVerifiedVote() {
 	})
 	var succ *ssa.Return
 	for _, r := range returnsOf(v) {
-		if isNilConst(r.Results[0]) {
+		if isNilConst(resultOf(r, 0)) {
 			succ = r
 		}
 	}
